@@ -195,12 +195,44 @@ fn base(n: usize, pat: usize) -> M {
         .collect()
 }
 
+/// row permutations applied to the dense nonsingular bases: every rotation and every 3-cycle among the first five rows
+/// (pivoting permutations that are not involutions), so that elimination of a dense matrix needs several exchanges
+fn row_perms(n: usize) -> Vec<Vec<usize>> {
+    let mut v: Vec<Vec<usize>> = (1..n).map(|s0| (0..n).map(|i| (i + s0) % n).collect()).collect();
+    let m = n.min(5);
+    for a in 0..m {
+        for b in a + 1..m {
+            for c in b + 1..m {
+                for dir in 0..2 {
+                    let mut p: Vec<usize> = (0..n).collect();
+                    if dir == 0 {
+                        p[a] = b;
+                        p[b] = c;
+                        p[c] = a;
+                    } else {
+                        p[a] = c;
+                        p[c] = b;
+                        p[b] = a;
+                    }
+                    v.push(p);
+                }
+            }
+        }
+    }
+    v
+}
+
 fn rank_deficient_space(ctx: &Ctx) {
     // (n, pattern, kind, i, j): kind 0 zero row i, 1 zero column i, 2 row j := row i, 3 row j := row i + row (i+1)%n, 4 block diag with zero block, 5 untouched base
     let mut cases: Vec<(usize, usize, usize, usize, usize)> = vec![];
     for n in 2..=8usize {
         for pat in 0..2 {
             cases.push((n, pat, 5, 0, 0));
+            if n >= 3 {
+                for k in 0..row_perms(n).len() {
+                    cases.push((n, pat, 6, k, 0));
+                }
+            }
             for i in 0..n {
                 cases.push((n, pat, 0, i, 0));
                 cases.push((n, pat, 1, i, 0));
@@ -216,7 +248,7 @@ fn rank_deficient_space(ctx: &Ctx) {
         }
     }
     ctx.lattice(
-        "rank-deficient / structured matrices of order 2..8",
+        "rank-deficient / structured matrices of order 2..8 (dense bases also under every row rotation and 3-cycle)",
         cases.len() as u64,
         |idx| format!("{:?}", cases[idx as usize]),
         |idx, acc| {
@@ -239,6 +271,14 @@ fn rank_deficient_space(ctx: &Ctx) {
                 3 => {
                     let k = (i + 1) % n;
                     a[j] = (0..n).map(|c| a[i][c] + a[k][c]).collect();
+                }
+                6 => {
+                    let p = &row_perms(n)[i];
+                    let b = a.clone();
+                    for rr in 0..n {
+                        a[p[rr]] = b[rr].clone();
+                    }
+                    acc.nontriv("dense base with permuted rows");
                 }
                 _ => {}
             }
@@ -537,7 +577,7 @@ fn complex_space(ctx: &Ctx, n: usize, full: bool) {
 fn main() {
     let ctx = Ctx::from_args("C02");
     ctx.level("exploration");
-    ctx.rule("E1 exhaustive lattices including every singular member: all n x n matrices over {0,+-1,+-2} (n<=2), {0,+-1} (n=3 quick; {0,+-1,+-2} thorough; n=4 over {0,+-1} thorough); all signed permutation matrices n<=6 (every exchange count and parity); products of <=2 (quick) / <=3 (thorough) transpositions with <=2 sign flips for n=7,8; triangular matrices with every diagonal over {0,+-1,+-2} for n=5..8; rank-deficient constructions (zero row/column, repeated row, row = sum of two) for n=2..8; f64 and Complex<f64> twins. Oracle: cofactor/Bareiss determinant over exact rationals; A*inv = inv*A = I exactly; matrix == clone taken before. Non-trivial: singular, zero row/column, odd / even>=2 exchange counts, order >= 5.");
+    ctx.rule("E1 exhaustive lattices including every singular member: all n x n matrices over {0,+-1,+-2} (n<=2), {0,+-1} (n=3 quick; {0,+-1,+-2} thorough; n=4 over {0,+-1} thorough); all signed permutation matrices n<=6 (every exchange count and parity); products of <=2 (quick) / <=3 (thorough) transpositions with <=2 sign flips for n=7,8; triangular matrices with every diagonal over {0,+-1,+-2} for n=5..8; rank-deficient constructions (zero row/column, repeated row, row = sum of two) and dense nonsingular bases under every row rotation and every 3-cycle of the first five rows, for n=2..8; f64 and Complex<f64> twins. Oracle: cofactor/Bareiss determinant over exact rationals; A*inv = inv*A = I exactly; matrix == clone taken before. Non-trivial: singular, zero row/column, odd / even>=2 exchange counts, order >= 5.");
     ctx.assume("orders 5..8 are covered through structured families only, not exhaustively");
     ctx.threshold("det_error_over_hadamard_f64", DET_REL);
     ctx.threshold("inverse_residual_f64", INV_RES);
